@@ -124,9 +124,13 @@ func c16Lifetime(steps int) {
 			if len(objs) > 0 {
 				o := objs[sym.Choose("which", len(objs))]
 				out := zzRoundTrip(a, zzFrame(net.Call, sid, o.id, 3, next(), zzLE32(o.id)))
-				if o.live {
-					sym.Assert(len(out) >= 1, "terminate-not-answered")
-					o.live = false
+				// identifiers are only unique among LIVE objects: the id of a removed object may
+				// have been given to a later one, which is then the one addressed
+				for _, t := range objs {
+					if t.live && t.id == o.id {
+						sym.Assert(len(out) >= 1, "terminate-not-answered")
+						t.live = false
+					}
 				}
 			}
 		case 3: // subscribe to a signal of one of the objects (registerEvent, action 0)
@@ -143,8 +147,8 @@ func c16Lifetime(steps int) {
 			id := zzPickID(objs, "call")
 			var target *zzObj
 			for _, o := range objs {
-				if o.id == id {
-					target = o
+				if o.id == id && (target == nil || o.live) {
+					target = o // the live holder of the id if there is one
 				}
 			}
 			before := int32(0)
